@@ -182,6 +182,15 @@ Lemma solo_is_update_examples :
   && solo_same cfg_clustered 3 (fault_at 41 OBefore) && solo_same cfg_single 1 (fault_at 1 OBefore) = true.
 Proof. vm_compute. reflexivity. Qed.
 
+Lemma gen_conc_oracle_accepts : forall (c : cfg) (sched : list (bool * outcome)) (hs : ccat cat) (who : bool),
+  opmon gen_sids None (oplog who (map (fun e => (fst e, abs_event gen_sids (snd e)))
+     (snd (ch_conc gen_scripts gen_oncluster c sched (proc0 c) (proc0 c) (db0 (ccat cat) hs))))) = true.
+Proof.
+  intros c sched hs who.
+  exact (conc_oracle_accepts (ccat cat) (cstmt stmt) (cl_exec cat stmt (exec_ch (cloud c))) (cl_pexec cat stmt (exec_ch (cloud c)))
+           (cl_scripts gen_scripts gen_oncluster c) gen_sids (cl_sids_len c) gen_sids_nonzero c sched (db0 (ccat cat) hs) who).
+Qed.
+
 (* the hypothesis of noop_when_current is met by a non-trivial database: the one an uninterrupted run of
    the clustered, replicated configuration (all six streams, 75 statements) ends with *)
 Example noop_hypothesis_met :
